@@ -73,6 +73,7 @@ class Mon:
         self.transmit_failures = []
         self.executor_failures = []
         self.reg = None
+        self.reg_nseam = {}
         self._undo = []
 
     def v(self, prop, cls, detail, **sig):
@@ -212,7 +213,7 @@ def run(plan, ch, want_log=False):
     result = {}
     hosts, wph = cp["hosts"], cp["wph"]
     task_faults = {f["task"]: f for f in faults if f["kind"].startswith("task_")}
-    kills = [f for f in faults if f["kind"] == "kill"]
+    kills = [dict(f) for f in faults if f["kind"] == "kill"]   # copies: the plan itself is never mutated
     work = {t["name"]: t.get("work_ms", 0) for t in jp["tasks"]}
     fstate = dict(last_fault=None, fired=[])
 
@@ -244,7 +245,7 @@ def run(plan, ch, want_log=False):
             raise RuntimeError(f"injected failure in {tag} at output {i}")
     simtasks.on_start, simtasks.on_yield = on_start, on_yield
 
-    reg_nseam = {}
+    reg_nseam = mon.reg_nseam
 
     def seam_hook(thread, kind, args):
         if not kills or mon.reg is None:
@@ -391,8 +392,8 @@ def _judge(plan, jp, job, K, mon, result, fstate, end, want_log):
 
     # ---- clean exit (C05 clause 3), after every run that ended
     if t_end is not None:
-        left = sorted(p.name for p in K.procs if p.exitcode is None and p.name != "ctrl")
-        late = [p.name for p in K.procs if p.exitcode is not None and p.name != "ctrl" and False]
+        live = set(getattr(K, "live_at_end", []))
+        left = sorted(p.name for p in K.procs if p.name != "ctrl" and p.main is not None and p.main.name in live)
         segs = sorted(K.segments)
         kinds = sorted({k for k, _, _ in fired}) or ["none"]
         if left:
@@ -411,7 +412,9 @@ def _judge(plan, jp, job, K, mon, result, fstate, end, want_log):
                       C06=K.net.stats["dropped"] + K.net.stats["dup"] > 0, C10=True)
     res = dict(harness=NAME, viol=[dict(prop=p, cls=c, detail=repr(d)[:500], sig=s) for p, c, d, s in viol], probes=dict(K.probes), fired=dict(K.fired),
                digest=K.digest(), steps=K.steps, simtime=(K.now - K.t0) / 1e9, stats=stats, nontrivial=nontrivial,
-               end=f"{verdict}/{end}", verdict=verdict)
+               end=f"{verdict}/{end}", verdict=verdict,
+               kill_ranges={p.name: p.nseam - mon.reg_nseam.get(p.name, 0) for p in K.procs
+                            if mon.reg is not None and p.name.count(".") == 1 and p.name in mon.reg_nseam})
     if want_log:
         res["log"] = K.tracelog
         res["result"] = {k: (repr(v)[:300]) for k, v in result.items()}
@@ -432,9 +435,28 @@ def _lost_for_good(K, mon):
     return out
 
 
-def expand(plan, res, rng, cap):
-    """Single-fault enumeration along the recorded schedule: one derived plan per candidate kill point."""
-    return []
+def expand(plan, res, rng, cap, kinds):
+    """Single-fault enumeration along the recorded schedule of a fault-free base run: one derived plan per
+    candidate fault point (every seam call after registration of every worker / data server / shm server; every
+    task x failure mode).  Returns (derived plans, total number of points)."""
+    pts = []
+    for pname, n in sorted(res.get("kill_ranges", {}).items()):
+        kind = pname.split(".")[-1].rstrip("0123456789")
+        if {"w": "kill_worker", "data": "kill_data", "shm": "kill_shm"}.get(kind) in kinds:
+            pts += [dict(kind="kill", proc=pname, after=k) for k in range(n + 1)]
+    if "task" in kinds:
+        for t in plan["job"]["tasks"]:
+            for k in ("task_raise", "task_exit0", "task_exit3") + (("task_raise_mid",) if t["nout"] > 1 else ()):
+                pts.append(dict(kind=k, task=t["name"], at=1))
+    total = len(pts)
+    if cap is not None and len(pts) > cap:
+        pts = [pts[i] for i in sorted(rng.sample(range(len(pts)), cap))]
+    out = []
+    for f in pts:
+        c = copy.deepcopy(plan)
+        c["faults"] = [f]
+        out.append(c)
+    return out, total
 
 
 def shrink_candidates(plan):
